@@ -417,11 +417,11 @@ def subready_model(ctx):
                 'MCNodes4 == {"a", "b", "c", "d"}\n'
                 'MCSome4 == {[a |-> {"b", "c"}, b |-> {"c", "a"}, c |-> {"d"}, d |-> {"b"}], [a |-> {"b", "c"}, b |-> {"d"}, c |-> {"d"}, d |-> {"a", "d"}],\n'
                 '            [a |-> {"b"}, b |-> {"c"}, c |-> {"d"}, d |-> {"a"}], [a |-> {"b", "c", "d"}, b |-> {"d"}, c |-> {"d"}, d |-> {}]}\n====\n')
-    def cfg(nodes, graphs, maxreq, fails, disp, live=True):
+    def cfg(nodes, graphs, maxreq, fails, disp, live=True, unsend="FALSE", invs="FireOnce Complete Counted SentClosed"):
         with open(os.path.join(d, "MCSubReady.cfg"), "w") as f:
-            f.write("SPECIFICATION Spec\nCONSTANTS\n Nodes <- %s\n Graphs <- %s\n MaxReq = %d\n Fails = %s\n WithDispose = %s\n"
-                    "INVARIANTS FireOnce Complete Counted SentClosed\n%sCHECK_DEADLOCK FALSE\n"
-                    % (nodes, graphs, maxreq, fails, disp, "PROPERTIES AllFire\n" if live else ""))
+            f.write("SPECIFICATION Spec\nCONSTANTS\n Nodes <- %s\n Graphs <- %s\n MaxReq = %d\n Fails = %s\n WithDispose = %s\n WithUnsend = %s\n"
+                    "INVARIANTS %s\n%sCHECK_DEADLOCK FALSE\n"
+                    % (nodes, graphs, maxreq, fails, disp, unsend, invs, "PROPERTIES AllFire\n" if live else ""))
     runs = [("MCNodes3", "MCAll3", 2 if ctx.tier == "quick" else 3, '{"b", "c"}')]
     if ctx.tier != "quick":
         runs.append(("MCNodes4", "MCSome4", 3, '{"c", "d"}'))
@@ -438,7 +438,12 @@ def subready_model(ctx):
     pn = tlc("MCSubReady.tla", d, [], timeout=900, workers=8)
     if "Invariant Counted is violated" not in pn.stdout:
         raise MachineryError("SubReady.tla with WithDispose = TRUE should violate Counted (finding KF-H):\n" + pn.stdout[-1500:])
-    cov = dict(states=td, transitions=tg, samples=[{"model": "spec/SubReady.tla: every reference graph over 3 resources (512 graphs, incl. self references and cycles)%s, OnReady calls from client requests and from references added by events, loads completing in any order, failing loads; invariants FireOnce Complete Counted SentClosed, liveness AllFire; negative check: disposing a root with parked callbacks violates Counted (KF-H)" % ("" if ctx.tier == "quick" else " and four 4-resource graphs")}],
+    # second negative check: the Unsend path (finding KF-U) lets a still loading reference be marked sent
+    cfg("MCNodes3", "MCAll3", 3, '{"b", "c"}', "FALSE", live=False, unsend="TRUE", invs="FireOnce Complete")
+    pu = tlc("MCSubReady.tla", d, [], timeout=900, workers=8)
+    if "Invariant Complete is violated" not in pu.stdout:
+        raise MachineryError("SubReady.tla with WithUnsend = TRUE should violate Complete (finding KF-U):\n" + pu.stdout[-1500:])
+    cov = dict(states=td, transitions=tg, samples=[{"model": "spec/SubReady.tla: every reference graph over 3 resources (512 graphs, incl. self references and cycles)%s, OnReady calls from client requests and from references added by events, loads completing in any order, failing loads; invariants FireOnce Complete Counted SentClosed, liveness AllFire; negative checks: disposing a root with parked callbacks violates Counted (KF-H); marking a sent subscription unsent while it goes on processing events violates Complete (KF-U)" % ("" if ctx.tier == "quick" else " and four 4-resource graphs")}],
                rule="exhaustive TLC on SubReady.tla; the code is bound to SubReadyOps by the rdy* / subRef / subSent notes replayed by SubReadyTrace.tla inside the observer on every gateway trace", exhaustive=False)
     return dict(coverage=cov, violations=[], level="model_checking", assumptions=[])
 
